@@ -669,7 +669,7 @@ def _session_impl(conf_extra, n, n_test, b, ep, wd, prev_dir_exists, variables0,
         runs = []
         dvar = None
         for _ in range(2 if again else 1):
-            rec = {"steps": [], "rows": [], "pair": True, "logged": [], "eval_rows": [], "ckpt": [], "epochs": []}
+            rec = {"steps": [], "rows": [], "pair": True, "logged": [], "eval_rows": [], "ckpt": [], "epochs": [], "windows": []}
             o_train, o_eval, o_upd, o_ck = tr.p_train_step, tr.p_eval_step, tr.update_metrics, tr.checkpoint
 
             def w_train(state, batch, rec=rec, o=o_train):
@@ -687,6 +687,7 @@ def _session_impl(conf_extra, n, n_test, b, ep, wd, prev_dir_exists, variables0,
 
             def w_upd(state, step, tm, t0, rec=rec, o=o_upd):
                 rec["logged"].append(int(step))
+                rec["windows"].append([int(step), len(tm)])  # how many steps' metrics the call receives
                 return o(state, step, tm, t0)
 
             def w_ck(state, rec=rec, o=o_ck):
@@ -768,6 +769,15 @@ def _session_case(ctx, model, name, n, n_test, b, ep, extra, pre=None, vars0=Fal
             ck = [e[0] + 1 for e in evs if e[4]] + [max(mo["offset"], m["N"])]
             mm = {"offset": mo["offset"], "steps": [e[0] for e in evs], "logged": [e[0] for e in evs if e[2]],
                   "ckpt": ck, "dir": mo["dir"], "eval_batches": mo["eval_batches"]}
+            if r["windows"] != mo["windows"] or [e[0] for e in evs] != mo["loop_steps"]:
+                def w_oracle(c, r=r, L=impl["log_every"], off=impl["offset"]):
+                    bad = [w for w in r["windows"] if w[1] != min(L, w[0] + 1 - off) or (w[0] + 1) % L != 0]
+                    return {"case": c, "update_metrics_calls": r["windows"], "wrong": bad,
+                            "what": "update_metrics is not called at exactly the steps with log_every_steps | step+1, or does not receive "
+                                    "the metrics of the steps since the previous call"} if bad or len(r["windows"]) != len(mo["windows"]) else None
+
+                ctx.disagree("flax.session.windows", {**case, "train_call": which}, r["windows"], mo["windows"], oracle=w_oracle)
+                return
             if a != mm:
                 def oracle(c, a=a, N=impl["N"]):
                     exp = list(range(a["offset"], N))
